@@ -13,3 +13,4 @@ def run(ck):
     region.r6_4_normalisation(ck, P)
     region.r6_5_touching_merges(ck, P)
     region.r7_4_compaction_cursors(ck, P)    # C07-R4: a clamp written through the input cursor leaves a malformed rectangle in the result
+    region.r_equality_sides(ck, P, 'C06-R6')
